@@ -1,5 +1,5 @@
 import Drand.DKG.Process
-namespace Drand.Driver
+namespace Drand.Driver.DkgD
 open Drand Drand.DKG
 
 structure DkgSt where
@@ -144,4 +144,4 @@ def dkgStep (s : DkgSt) (f : List String) : DkgSt × String :=
   | ["dump"] => (s, reply s .ok)
   | _ => (s, "bad-op")
 
-end Drand.Driver
+end Drand.Driver.DkgD
